@@ -1,0 +1,20 @@
+//go:build verif
+
+// Contracts for the deductive checker in /verif (comment-only; compiled only with -tags verif).
+
+package ljh
+
+// Handles only (C06): closing/flushing a writer does not touch anything the write-control state
+// depends on.  The record/flush contracts proper are given with C05/C07.
+//@ func (Writer).Close
+//@   trusted
+//@   modifies any(os.File).closed
+//@ func (Writer3).Close
+//@   trusted
+//@   modifies any(os.File).closed
+//@ func (Writer).Flush
+//@   trusted
+//@   modifies nothing
+//@ func (Writer3).Flush
+//@   trusted
+//@   modifies nothing
